@@ -106,22 +106,25 @@ CLAIMED = {
 
 # third session: what was added to each check (appended to the level text)
 ADDENDA = {
+    'C11': ' Windows are also taken through the short method name f.slice(...).',
     'C01': ' Disk-backed receivers: programs whose first template is written to netCDF and opened again (reopen step) and then transformed.',
     'C02': ' The string form slice_dim is driven with its default fuzzydim=True; PncCore.tla FuzzyTargets states which dimensions it addresses (the named one and its numbered variants), template T9 has dimensions lev, lev2, lev2m, lev10.',
-    'C03': ' reduce_dim is driven with its default fuzzydim=True (FuzzyTargets, template T9). An in-domain apply call that raises is a violation of this property too.',
-    'C04': ' The multi-file open helpers pncmfopen / open_mfdataset are entry points of the stack step: pieces are written to disk by reopen steps and opened as one file in the order of the pieces and in other orders (also with descending coordinates, and without a dimension name: DefaultStackDim).',
+    'C03': ' reduce_dim is driven with its default fuzzydim=True (FuzzyTargets, template T9). An in-domain apply call that raises is a violation of this property too. The standard deviation is decided through its square (StdCall / AsVar: the squares of the result must be the variance of the specification). Functions that only select or reorder elements (rev, sub2, first: SelFuns) carry every cell with its mask and value, also inf/nan (template T6, selection family).',
+    'C04': ' The multi-file open helpers pncmfopen / open_mfdataset are entry points of the stack step: pieces are written to disk by reopen steps and opened as one file in the order of the pieces and in other orders (also with descending coordinates, and without a dimension name: DefaultStackDim). The same path may occur more than once.',
     'C05': ' Disk-backed receivers: 150 (quick) / 1500 programs call the queries (save, dump, getTimes, ...) and transformations on a template that was written to netCDF and opened again.',
-    'C07': ' Non-finite values (inf, nan) in unmasked cells of float variables.',
+    'C07': ' Non-finite values (inf, nan) in unmasked cells of float variables. Histories: spec/NcSession.tla states that what is stored depends on the file only (HistoryFree over all save histories of 3 files, sharp against a writer that remembers record dimensions); the emitted histories are replayed as several saves in ONE process.',
     'C08': ' Steps of 24 hours for the meteorological formats (c.dth); lateral-boundary and gridded starts whose steps end on day 366 of a leap year and on 1 January; the re-read end time flags must be the flags of the source (a YYJJJ word must name an existing day).',
     'C09': ' A YYJJJ word must name an existing day (99366 is not a spelling of 00001); steps of 24 hours for the meteorological formats.',
-    'C10': ' Template I6 is built from GRIDDESC text and carries the CF variables; coherence is demanded of every object of an ioapi_base subclass.',
+    'C10': ' Template I6 is built from GRIDDESC text and carries the CF variables; coherence is demanded of every object of an ioapi_base subclass. Pieces of the time axis are stacked in every order (tstep_stacks); the short method names slice / apply / subset are entry points too.',
     'C12': ' The synthesis stage also adds time_bounds (n + 1 edges must be the instants of the flags plus one step), runs on attribute-only files and with steps of 100 hours or more.',
     'C16': ' Datetime front-ends: time2idx on coordinates with CF units (four units, seven reference instants incl. offsets, probes as UTC / other zone / naive datetimes, list or array) and the older time2t (nearest / bounds / bounds_close; AllowedT2t); the value looked up is derived by TLC from the civil fields of the datetime passed (TimeVal over Calendar.tla).',
-    'C17': ' The grid pairs are also replayed far from the origin (offsets 1e5, 2.45e6, 1.6e9: coordinates large against their spacing); Interp_MC checks translation invariance of the weights.',
-    'C18': ' Tracers whose category offset + id has no line in the tracer table (intab = FALSE: named after the bare tracer, scale 1, unit of the data header) next to the bare tracer in an offset-0 category.',
-    'C19': ' The independent variable is stored as double, int32, int64 or float32, dependent variables as double or float32.',
+    'C17': ' The grid pairs are also replayed far from the origin (offsets 1e5, 2.45e6, 1.6e9: coordinates large against their spacing); Interp_MC checks translation invariance of the weights. interpSigma is also called with a vgtop different from the file\'s VGTOP (Interp.tla Resigma: the file\'s edges relative to the new top).',
+    'C18': ' Tracers whose category offset + id has no line in the tracer table (intab = FALSE: named after the bare tracer, scale 1, unit of the data header) next to the bare tracer in an offset-0 category. Level-range output (window origin l0 > 1 with i0 = j0 = 1); the STARTI/STARTJ/STARTK attributes of every tracer variable must be the window origin.',
+    'C19': ' The independent variable is stored as double, int32, int64 or float32, dependent variables as double or float32. Valid values that differ from the variable\'s own missing code in the 6th or 7th significant digit.',
     'C20': ' Grids with 1000 or more cells in one direction (GridId: letters in the label, remainders in the index record).',
 }
+ADD14 = (' The public bpch reader (geoschemfiles.bpch: bpch1, else the block-walking reader) is opened on every cut too and must satisfy the property clauses (no fewer tracers, no more blocks than are complete, exposed blocks identical). The reader-model clauses are one-sided: a reader may be stricter than its transcribed decision procedure on a proper prefix (NOTE), never more generous.')
+ADDENDA['C14'] = ADDENDA.get('C14', '') + ADD14
 NOTE_FIX = {
     'C16': ('Datetime front-end time2idx is covered through C12 (date2num round trip) rather than here.', 'time2t is exercised on ascending time axes with explicit n x 2 time_bounds or uniform spacing (getTimes(bounds=True) is approximate otherwise, with a warning).'),
     'C08': ('Land use is not modelled (DESIGN.md I.2); ', 'Land use (old and new style, optional records) is in the grammar too; '),
